@@ -5,7 +5,7 @@ from srp_cases import *
 import pyref
 
 MODULES = ["WowSrp.Props.C05", "WowSrp.Props.Source.C05", "WowSrp.Props.Source.Structural.C05", "WowSrp.Props.Source.Shape.C05", "WowSrp.Props.Source.HashesReconnect", "WowSrp.Props.Source.ApiReconnect", "WowSrp.Props.Source.ApiLinkedReconnect"]
-THEOREMS = ["C05_verdict", "C05_proof_layout", "C05_verdict_iff", "C05_refresh", "C05_history_list", "C05_history", "C05_state_after", "C05_legit_forever", "C05_legit_run", "C05_changed_proof_refused", "C05_flipped_proof_refused", "C05_flipped_proof_refused_160", "C05_other_inputs_collision", "C05_replay", "C05_replay_in_history", "C05_wrong_key", "C05_wrong_username", "C05_changed_client_data", "C05_source_layout", "C05_source_structural_impls", "C05_challenge_width", "C05_draws_are_segments", "C05_draws_width", "C05_history_rng", "C05_replay_refused_when_draws_distinct", "C05_replay_accepted_when_offers_equal", "C05_replay_accepted_when_draws_equal", "C05_source_shapes", "C05_translated_reconnect_proof", "C05_translated_verify_reconnection_attempt", "C05_translated_calculate_reconnect_values", "C05_linked_verify_reconnection_attempt", "C05_translated_reconnect_signatures"]
+THEOREMS = ["C05_verdict", "C05_proof_layout", "C05_verdict_iff", "C05_refresh", "C05_history_list", "C05_history", "C05_state_after", "C05_legit_forever", "C05_legit_run", "C05_changed_proof_refused", "C05_flipped_proof_refused", "C05_flipped_proof_refused_160", "C05_other_inputs_collision", "C05_replay", "C05_replay_in_history", "C05_wrong_key", "C05_wrong_username", "C05_changed_client_data", "C05_source_layout", "C05_source_structural_impls", "C05_challenge_width", "C05_draws_are_segments", "C05_draws_width", "C05_history_rng", "C05_replay_refused_when_draws_distinct", "C05_replay_accepted_when_offers_equal", "C05_replay_accepted_when_draws_equal", "C05_source_shapes", "C05_translated_reconnect_proof", "C05_translated_verify_reconnection_attempt", "C05_translated_calculate_reconnect_values", "C05_linked_verify_reconnection_attempt", "C05_translated_reconnect_signatures", "C05_linked_calculate_reconnect_values"]
 RULE = ("random histories of reconnect attempts after a full login (injected salt/a/b/challenge and one injected 16-byte draw per attempt): "
         "kinds {correct for the current challenge, replay of any earlier pair, proof for a stale challenge, wrong session key, wrong username, "
         "single-bit change of proof / of client data, client data equal to the current or an earlier server challenge (right and wrong proof), usernames "
